@@ -101,6 +101,12 @@ def run(res, tier, seed, shard, nshards):
     for name, st in ext:
         for call in CALLS[:3]:
             jobs.append(("hdr-timeouts", name, st, call))
+    big = [("big16385", R.encode(R.BINARY, bytes(i % 251 for i in range(16385))) + R.encode(R.TEXT, b"after")),
+           ("big40000-masked", R.encode(R.BINARY, bytes(i % 253 for i in range(40000)), key=b"\x0a\x0b\x0c\x0d") + R.encode(R.PING, b"p") + R.encode(R.TEXT, b"after")),
+           ("big65536-frag", R.encode(R.TEXT, b"z" * 65536, fin=0) + R.encode(R.CONT, b"tail") + R.encode(R.TEXT, b"after"))]
+    for name, st in big:
+        for call in CALLS[:2]:
+            jobs.append(("payload-timeouts", name, st, call))
 
     def scen():
         for ji, job in enumerate(jobs):
@@ -167,6 +173,24 @@ def run(res, tier, seed, shard, nshards):
                         continue
                     if (k + ji) % nshards == shard:
                         one(res, W, st, call, head, {a: 1, b: 1}, None, (name, "hdr-timeout2"))
+            elif job[0] == "payload-timeouts":
+                # the payload arrives in pieces (cut at and around multiples of the 16384-byte read size and at random places) and
+                # a timeout / would-block strikes before a later piece: nothing read so far may be lost
+                _, name, st, call = job
+                n = len(st)
+                places = sorted({x for x in (10, 14, 16384, 16390, 16398, 20000, 32768, 32782, n - 20) if 0 < x < n} | {rng.randrange(20, n - 10) for _ in range(3)})
+                k = 0
+                for pi in range(1, len(places) + 1):
+                    for mode in ("timeout", "nonblocking", "eagain"):
+                        k += 1
+                        if (k + ji) % nshards != shard:
+                            continue
+                        if mode == "timeout":
+                            one(res, W, st, call, places, {pi: 1}, None, (name, "payload-timeout"))
+                        elif mode == "nonblocking":
+                            one(res, W, st, call, places[max(0, pi - 2):pi], None, None, (name, "payload-nonblocking"), pauses=True)
+                        else:
+                            one(res, W, st, call, places, None, None, (name, "payload-eagain"), eagain=(pi, "then-gap"))
             elif job[0] == "eagain":
                 # the EAGAIN / SSLWantRead branch of the transport read: spurious (data follows at once) and followed by
                 # a real gap longer than the socket timeout (= a receive timeout at that byte position)
